@@ -67,7 +67,17 @@ CHECKS = {
         "Solver contract assumed: ||r|| <= max(rtol||b||, atol) with the rtol/atol the library "
         "passes; dense LU in the harness is the exact answer.",
         "4/C04"),
-    "C05": (False, EX, "", "", "", "4/C05"),
+    "C05": (
+        True, EX,
+        "complete enumeration of recovery curves x M x tau (9 decades) x scale factors x fit windows x "
+        "Bounds variants x guess positions x malformed bounds",
+        "Scaling law, linearity in M and joint time/tau rescaling are checked to rounding on every "
+        "(curve, M, tau, factor); every (curve, M, tau, window end in {0.6,1,3} tau, 50|200 samples, "
+        "Bounds with the truth inside / below / above) fit must land inside its bounds (zero tolerance), "
+        "recover M and tau to 1e-3 when the truth is admissible, return a supplied tau bitwise with M the "
+        "clipped closed-form least-squares optimum (1e-6); all 9 x 16 guess positions are regularised "
+        "into finite bounds; 14 malformed Bounds raise ValueError.",
+        "NaN bounds and (-inf, x) bounds are outside the quantifier.", "4/C05"),
     "C06": (
         True, EX,
         "complete enumeration of a (T_r, p_r, pseudocritical point) lattice, of the default table "
@@ -212,7 +222,19 @@ CHECKS = {
         "diffusivity amplifies; measured worst 1.2x) + 1e-12|m_i|; interpolator clause on strictly "
         "increasing grids.",
         "4/C17"),
-    "C18": (False, EX, "", "", "", "4/C18"),
+    "C18": (
+        True, EX,
+        "complete enumeration of generating parameters x schedules x table lengths x evaluation points "
+        "(objective) and x filter x window x iteration budget (fit), with harness-side recording "
+        "subclasses of the reservoir and Minimizer classes the module looks up",
+        "The objective is compared (1e-8 M) with M x recovery factor from the harness's own composition "
+        "of the public API using the node count observed in the objective's constructor call, at and "
+        "away from the generating parameters (zero at them); for every fit the Parameters and fcn_args "
+        "handed to the minimiser are captured: fitted values inside their limits, p_initial limits = "
+        "[max used frac-face pressure, pressure_imax], filtered rows excluded, days re-indexed, cumulative "
+        "= running sum, window None/1 leaves pressures bitwise unchanged, window 3 = boxcar; caller's "
+        "table unchanged.",
+        "Filtering off is exercised on clean data only.", "4/C18"),
     "C19": (
         True, EX,
         "complete enumeration of Fluid parameter sets x methods x pressures, of build_pvt_gas "
@@ -224,7 +246,18 @@ CHECKS = {
         "grid 10, 20, ... < maximum; each table is built after neighbouring tables that differ in one "
         "argument, and a set of builder calls is evaluated in three orders with bitwise-equal results.",
         "Hydrocarbon-only Sutton polynomials as transcribed.", "4/C19"),
-    "C20": (False, EX, "", "", "", "4/C20"),
+    "C20": (
+        True, EX,
+        "complete enumeration of reservoirs x strides x rescale x tick settings and comparison-figure "
+        "settings; every drawn artist is read back from the Axes; transform laws on arrays spanning "
+        "denormals to 1e300 in float64 and float32",
+        "For every figure the Line2D data read back from the Axes must be bitwise the simulated data: "
+        "every k-th profile against linspace(1/nx,1,nx) (rescaled when requested), (time, recovery), "
+        "(time, np.gradient(recovery, time)), and in the comparison figure (t/tau, simulated recovery), "
+        "(t/tau, cumulative/M), (t/tau, frac-face pressure) for both filter settings and windows "
+        "None/1/3; transform = sqrt to 2 ulp, inverse(transform(x)) and transform(inverse(x)) = x to "
+        "8 ulp, inverted() returns the partner class, the 'squareroot' scale is registered.",
+        "matplotlib stores the arrays it is given.", "4/C20"),
 }
 
 BASELINE_OFF = ("cd /repo && env -u BLUEBONNET_VERIF /venv/bin/python -m pytest -ra -q "
